@@ -73,11 +73,11 @@ def write_if_changed(path, content):
     return True
 
 
-GENERATORS = {  # tools/extract/cmd/<name> -> coq/Generated/<file>
+GENERATORS = {  # tools/extract/cmd/<name> -> files under coq/Generated/ (a list means -out takes a directory)
     "idconsts": "IdConsts.v",
     "dataconsts": "DataConsts.v",
     "ledgerconsts": "LedgerConsts.v",
-    "miscconsts": "MiscConsts.v",
+    "miscconsts": ["IntertxConsts.v", "QueryConsts.v"],
 }
 
 
@@ -88,23 +88,29 @@ def run_translator(report):
     outdir = os.path.join(WORK, "generated")
     os.makedirs(outdir, exist_ok=True)
     changed, logs, ok_all = [], [], True
-    for name, vfile in sorted(GENERATORS.items()):
+    for name, vfiles in sorted(GENERATORS.items()):
         if not os.path.isdir(os.path.join(tdir, "cmd", name)):
             continue
         binp = os.path.join(tdir, "bin", name)
         rc, out = run(["go", "build", "-o", binp, "./cmd/" + name], cwd=tdir, env=GOENV, timeout=600)
         if rc != 0:
             raise FrameworkError("translator %s does not build:\n%s" % (name, out))
-        outp = os.path.join(outdir, vfile)
+        if isinstance(vfiles, list):
+            outp = outdir
+            files = vfiles
+        else:
+            outp = os.path.join(outdir, vfiles)
+            files = [vfiles]
         rc, out = run([binp, "-repo", REPO, "-out", outp], cwd=tdir, env=GOENV, timeout=300)
         logs.append("%s: rc=%d %s" % (name, rc, out[-1500:]))
         if rc != 0:
             ok_all = False
             report["translator_failed"] = (report.get("translator_failed", "") + "\n" + name + ": " + out[-1500:])
             continue
-        with open(outp) as fh:
-            if write_if_changed(os.path.join(COQ, "Generated", vfile), fh.read()):
-                changed.append(vfile)
+        for vf in files:
+            with open(os.path.join(outdir, vf)) as fh:
+                if write_if_changed(os.path.join(COQ, "Generated", vf), fh.read()):
+                    changed.append(vf)
     report["translator_log"] = "\n".join(logs)[-4000:]
     report["generated_changed"] = changed
     return ok_all
@@ -300,7 +306,11 @@ def load_known():
 
 def known_match(known, prop, key):
     for k in known.get("findings", []):
-        if k.get("status") == "known" and k.get("property") == prop and k.get("key") == key:
+        if k.get("status") != "known" or k.get("property") != prop:
+            continue
+        if k.get("key") == key:
+            return k
+        if k.get("key_regex") and key is not None and re.fullmatch(k["key_regex"], key):
             return k
     return None
 
@@ -476,7 +486,11 @@ def main(argv):
         with open(os.path.join(VERIF, "evidence", pid + ".json"), "w") as f:
             json.dump(ev, f, indent=1)
 
-        for k, mv in known_hits[:20]:
+        seen_known = set()
+        for k, mv in known_hits:
+            if k.get("key") in seen_known:
+                continue
+            seen_known.add(k.get("key"))
             print("KNOWN-FINDING: property=%s %s (%s)" % (pid, k.get("key"), (k.get("desc") or "")[:200]))
         if violations:
             # concrete failing inputs first
